@@ -283,7 +283,7 @@ pub fn run(ctx: &Ctx) -> i32 {
         acc
     }).reduce(Acc::new, Acc::merge);
     let mut acc = acc;
-    for (wn, m) in families::wide_tier(th) { if let Ok(e) = catch(|| bind::build(&m, 0)) { acc.inc("wide_shapes"); check_envelope(&mut acc, &e, &|| format!("wide/{wn}")) } }
+    for (wn, m) in families::wide_all(th) { if let Ok(e) = catch(|| bind::build(&m, 0)) { acc.inc("wide_shapes"); check_envelope(&mut acc, &e, &|| format!("wide/{wn}")) } }
     // assertions that carry their own assertions (salted / annotated), also next to a plain one with the same predicate
     {
         let salt = crate::explore::fixed_salt();
